@@ -22,7 +22,7 @@ C['C12'] = dict(cat='exploration', tech=BE,
     text="All short regexes over a delimiter-heavy alphabet plus 22 special shapes (literals anchored at one or both ends, flags, alternation, word boundaries, repetition) x invert x option values, each run end to end (GrepClient -> wire encoding -> ServerHandler -> reader) and compared with the pattern compiled and applied directly.",
     ref="DESIGN.md 3.3, 4 (C12)")
 C['C13'] = dict(cat='model_checking', tech=MC,
-    text="All schedules within a deviation bound (quick d<=2, thorough d<=3) of 2-3 real ServerHandler sessions sharing one real limiter channel, cat, tail and map+cat, with cancellation at any point; invariant on every state: distinct open test files <= limit; end state: every non-cancelled read delivered, limiter empty. Part 2 (native): the server's own scheduled and continuous jobs, run by the real job-runner functions on a real server whose slots are held by SSH sessions, are not read beyond the limit and proceed when a slot frees.",
+    text="All schedules within a deviation bound (quick d<=2, thorough d<=3) of 2-3 real ServerHandler sessions sharing one real limiter channel, cat, tail and map+cat, with cancellation at any point; invariant on every state: distinct open test files <= limit; end state: every non-cancelled read delivered, limiter empty. Part 2 (native): the server's own scheduled and continuous jobs, run by the real job-runner functions on a real server whose slots are held by SSH sessions, are not read beyond the limit and proceed when a slot frees. Part 3: free-running -race pass (data races in the read-command and server accounting code).",
     ref="DESIGN.md 3.1, 3.2, 4 (C13)")
 C['C16'] = dict(cat='exploration', tech=BE,
     text="Exhaustive enumeration of server byte streams (all messages of <=4/<=5 tokens over a 20-token alphabet, record prefixes, split writes) through the three real client handlers in both colour modes; oracle: no panic, strip(coloured)==strip(uncoloured); hidden close messages racing with the handler's tear-down under all schedules within 2 deviations; part 2: free-running -race pass of concurrent handlers in colour mode (any data race in the property's packages is a violation).",
@@ -35,7 +35,7 @@ C['C01'] = dict(cat='exploration', tech=BE,
     text="Every file content of <=3/<=4 tokens over 16 byte tokens (0x00, the wire delimiter 0xAC alone and inside UTF-8 characters, 0xFF, leading '.', '|', ';', CR, runs around MaxLineLength), gzip/zstd encodings, and a long-line family around MaxLineLength and the 32 KiB transport buffer, each run through the real dcat main body (serverless, controlled scheduler, incl. reads slow enough to span dtail's timers, a grid of disk and transport speeds for consecutive over-long lines, and one over-long-line scenario under all schedules within one deviation) and compared byte for byte with the statement's reference (newline inserted after every MaxLineLength non-newline bytes); part 2 fetches all contents of <=3/<=4 tokens and over-long lines through a real in-process dtail server over SSH (native build), also with the server in a process of its own whose MaxLineLength differs from the client's configuration.",
     ref="DESIGN.md 3.3, 4 (C01), 9.6")
 C['C02'] = dict(cat='model_checking', tech=MC,
-    text="All schedules within a deviation bound (quick d<=2, thorough d<=2 on a larger scenario set; deviations = preemption, non-first ready select case, goroutine demotion) of complete dcat/dgrep sessions (real client main body, serverless connector, server handler, readers, client handler) over 1-3 files, with queueing behind the cat limit, globs that also match entries that are not read (directory, dangling link, denied file) and consumer stalls of 50 ms..61 s; oracle: per file exactly its selected lines once and in order, exit status 0, termination.",
+    text="All schedules within a deviation bound (quick d<=2, thorough d<=2 on a larger scenario set; deviations = preemption, non-first ready select case, goroutine demotion) of complete dcat/dgrep sessions (real client main body, serverless connector, server handler, readers, client handler) over 1-3 files, with queueing behind the cat limit, globs that also match entries that are not read (directory, dangling link, denied file) and consumer stalls of 50 ms..61 s; oracle: per file exactly its selected lines once and in order, exit status 0, termination. Last part: free-running -race pass of concurrent real sessions (any data race in the reader, handler, pool and client packages is a violation).",
     ref="DESIGN.md 3.1, 3.2, 4 (C02)")
 C['C04'] = dict(cat='model_checking', tech=MC,
     text="All schedules within a deviation bound (quick d<=2, thorough d<=3) of the real TailFile reader following a real file while a writer appends 1-3 lines in every composition into write() calls and a consumer receives; file opens/reads/writes are scheduling points; plus (canonical schedule) histories of 30..450 delivered lines before 1 or 3 lines are dropped; oracle relative to the offset at which the follow began: exactly the complete appended lines, once, in order; gaps only with a full queue and then TransmittedPerc < 100; every delivered line carries its own running number.",
@@ -48,7 +48,7 @@ C['C07'] = dict(cat='model_checking', tech=MC,
     ref="DESIGN.md 3.1, 3.2, 4 (C07)")
 
 C['C06'] = dict(cat='model_checking', tech=MC,
-    text="All schedules within a deviation bound (quick: d<=2 on two scenarios, d<=1 on three; thorough d<=2) of complete dmap runs: real MaprClient, one in-process server per server-list entry (map command, read commands behind the cat limiter, server Aggregate), per-server client handlers, GlobalGroupSet, final outfile, incl. a file that fails while being read (empty/corrupt .gz); oracle: final count and sum per key == totals over all files of all servers, exit status 0, termination.",
+    text="All schedules within a deviation bound (quick: d<=2 on two scenarios, d<=1 on three; thorough d<=2) of complete dmap runs: real MaprClient, one in-process server per server-list entry (map command, read commands behind the cat limiter, server Aggregate), per-server client handlers, GlobalGroupSet, final outfile, incl. a file that fails while being read (empty/corrupt .gz); oracle: final count and sum per key == totals over all files of all servers, exit status 0, termination. Last part: free-running -race pass (any data race in the mapreduce packages is a violation).",
     ref="DESIGN.md 3.1, 3.2, 4 (C06)")
 C['C08'] = dict(cat='exploration', tech=BE,
     text="All ordered rule lists of length <=3/<=4 over 11 rules (allow, deny, bare rules with ':', typed, foreign type; default and per-user) x 24 requested paths over a real tree with every symlink kind, FIFO, directory, device; verdict of HasFilePermission compared in both directions with an independent reference, plus end-to-end cat sessions (paths and globs) delivering exactly the allowed content.",
